@@ -284,8 +284,11 @@ func c16History(res *vlib.Result, hist []string) {
 	id := "imports into one cache: " + strings.Join(hist, " -> ")
 	M, I := security.NewSessionCache(), security.NewSessionCache()
 	sinful := c16Sinfuls[2]
-	mc, err := security.MintClaimSession(M, security.MintClaimOptions{Sinful: sinful, Birthdate: 1, SequenceNum: 2})
-	mc2, err2 := security.MintClaimSession(M, security.MintClaimOptions{Sinful: sinful, Birthdate: 1, SequenceNum: 3})
+	// both claims list the same command and name the same peer: the command map of either cache
+	// can hold only one of them for (peer, 443), the explicitly named session must win
+	const impAddr = "<10.9.9.9:7777>"
+	mc, err := security.MintClaimSession(M, security.MintClaimOptions{Sinful: sinful, Birthdate: 1, SequenceNum: 2, ValidCommands: []int{443}, PeerAddr: impAddr})
+	mc2, err2 := security.MintClaimSession(M, security.MintClaimOptions{Sinful: sinful, Birthdate: 1, SequenceNum: 3, ValidCommands: []int{443}, PeerAddr: impAddr})
 	if err != nil || err2 != nil {
 		res.Violate("C16/mint-error", "%v %v", err, err2)
 		return
@@ -343,10 +346,13 @@ func c16History(res *vlib.Result, hist []string) {
 		cc := baseCfg(security.SecurityOptional, security.SecurityOptional, nil, []security.CryptoMethod{security.CryptoAES}, false)
 		sc := baseCfg(security.SecurityOptional, security.SecurityOptional, nil, []security.CryptoMethod{security.CryptoAES}, true)
 		cc.SessionID, cc.Command = sid, 443
+		cc.PeerName = []string{sinful, impAddr}[dir]
 		cc.SessionCache, sc.SessionCache = caches[0], caches[1]
 		r := hsRun(hsOpts{ClientCfg: cc, ServerCfg: sc, App: true})
 		if r.C.Err != nil || r.S.Err != nil || !r.C.Resumed || !r.S.Resumed || string(r.S.AppGot) != "ping-from-client" || string(r.C.AppGot) != "pong-from-server" {
 			res.Violate("C16/history/resumption-failed", "%s, direction %d: client %s server %s resumed %v/%v", id, dir, errStr(r.C.Err), errStr(r.S.Err), r.C.Resumed, r.S.Resumed)
+		} else if r.C.Neg.SessionId != sid || r.S.Neg.SessionId != sid {
+			res.Violate("C16/history/rode-another-session", "%s, direction %d: the dialer named session %q; the connection rides %q (server: %q)", id, dir, sid, r.C.Neg.SessionId, r.S.Neg.SessionId)
 		}
 	}
 	res.Outcome("history-ok")
